@@ -21,6 +21,7 @@ DRIVER = "Drivers/C02.lean"
 COMPS = [0, 1, 2, 9, 10, 11]
 KEY_DESC = "dot:port-with-tag-and-own-descendant:order-dependent"
 KEY_MIXED = "cart:ports-with-mixed-tag-depths:order-dependent"
+KEY_NESTC = "nest:cartesian-over-inner-combinator:raises"
 
 
 # ------------------------------------------------------------------------------------------------
@@ -72,7 +73,8 @@ def build(wf: Workflow, shape: dict):
         for p in range(shape["P"]):
             c.add_item(f"p{p}")
         return c
-    outer = DotProductCombinator(name="outer", workflow=wf)
+    outer = (DotProductCombinator(name="outer", workflow=wf) if shape["kind"] == "nest" else
+             CartesianProductCombinator(name="outer", workflow=wf, depth=shape["depth"]))
     for i, it in enumerate(shape["items"]):
         if isinstance(it, int):
             outer.add_item(f"p{it}")
@@ -356,6 +358,14 @@ CORPUS = [
 ]
 
 
+NESTC_CORPUS = [
+    ({"kind": "nestc", "depth": 1, "items": [["d", [0, 1]], 2]}, [(0, "0.0", 1), (1, "0.0", 2), (2, "0.0", 3)]),
+    ({"kind": "nestc", "depth": 1, "items": [["d", [0, 1]], 2]}, [(0, "0.0", 1), (1, "0.0", 2), (0, "0.1", 4), (1, "0.1", 5), (2, "0.9", 3)]),
+    ({"kind": "nestc", "depth": 1, "items": [["c", 1, [0, 1]], 2]}, [(0, "0.0", 1), (1, "0.0", 2), (2, "0.0.0", 3)]),
+    ({"kind": "nestc", "depth": 1, "items": [2, ["d", [0, 1]]]}, [(2, "0.10", 3), (0, "0.1", 1), (1, "0.1", 2)]),
+]
+
+
 class C02(Property):
     pid = "C02"
     title = "Combinators emit exactly the right combinations, whatever the arrival order"
@@ -463,6 +473,28 @@ class C02(Property):
             evs = [S[j] for j in ords[i]]
             batch.append((line_of(shape, evs), render(*results[i]), shape, S, ords[i]))
 
+    def _nestc(self, ctx: Ctx, wf) -> None:
+        """a cartesian product over an inner combinator (a depth-2 tree of the property's quantifier): the composition rule
+        specifies at least one combination for these streams; the real class raises instead (monitor only, not modelled)"""
+        for shape, S in NESTC_CORPUS:
+            ords = orders(ctx.rng, len(S), 24)
+            results = []
+
+            async def go():
+                for o in ords:
+                    results.append(await run_real(wf, shape, [S[i] for i in o]))
+
+            with alarm(60):
+                sfloop.run_controlled(go, ctx.seed, timeout=60)
+            ctx.case({"shape": shape, "stream": S, "orders": len(ords), "real_first_order": render(*results[0])}, None, "nestc")
+            bad = next(((o, e) for o, (_, e) in zip(ords, results) if e is not None), None)
+            if bad is not None:
+                ctx.fail(KEY_NESTC, f"{shape} stream {S} in arrival order {list(bad[0])}: combine() raised {bad[1]} before emitting the "
+                                    f"combination(s) the composition rule specifies", {"shape": shape, "stream": S, "orders": [list(bad[0])]})
+            elif not any(out for out, _ in results):
+                ctx.fail("nest:cartesian-over-inner-combinator:emits-nothing", f"{shape} stream {S}: nothing emitted in any order",
+                         {"shape": shape, "stream": S, "orders": [list(ords[0])]})
+
     def _flush(self, ctx: Ctx, batch: list) -> None:
         if not batch:
             return
@@ -536,6 +568,7 @@ class C02(Property):
             if len(batch) >= 4000:
                 self._flush(ctx, batch)
         self._flush(ctx, batch)
+        self._nestc(ctx, wf)
         self._steps(ctx)
 
     def _steps(self, ctx: Ctx) -> None:
@@ -606,6 +639,20 @@ class C02(Property):
         shape, S = r["shape"], [tuple(e) for e in r["stream"]]
         if "step_seed" in r:
             return self._replay_step(ctx, r, shape, S)
+        if shape["kind"] == "nestc":
+            wf = Workflow(context=sfctx.make_context(ctx.scratch), config={}, name="w")
+            for o in (r.get("orders") or [list(range(len(S)))]):
+                res: list = []
+
+                async def go1():
+                    res.append(await run_real(wf, shape, [S[i] for i in o]))
+
+                with alarm(60):
+                    sfloop.run_controlled(go1, 0, timeout=60)
+                print(f"{shape}\nstream {S} order {o}\n   real: {render(*res[0])}   (not modelled: cartesian product over an inner combinator)")
+                if res[0][1] is not None:
+                    ctx.fail(KEY_NESTC, f"combine() raised {res[0][1]}", r)
+            return
         wf = Workflow(context=sfctx.make_context(ctx.scratch), config={}, name="w")
         ords = [tuple(o) for o in (r.get("orders") or [list(range(len(S)))])]
         results = []
